@@ -1,5 +1,5 @@
 """C32 — Header-ex requests are retried boundedly and answered once."""
-from engine.rules import Cmp, Direct, Has, aggregates, call_expr, call_sites_with, const_value, exit_sites, require_guard, variant_index
+from engine.rules import Cmp, Direct, Has, aggregates, call_expr, call_sites_with, const_value, exit_sites, require_guard, variant_index, root_fn, all_call_sites
 from engine.mir import has_all, has_leaf, norm_proj
 
 C = "lumina_node::p2p::header_ex::client::"
@@ -40,6 +40,24 @@ def run(ctx):
                         dec.append(b)
         ok = len(send) == 1 and len(ins) == 1 and len(dec) >= 1 and all(s.dominates(send[0], d) and s.dominates(d, ins[0]) for d in dec)
         ctx.check(ok, "C32.decrement", s.path, "send_request -> tries_left -= 1 -> reqs.insert, on every path", site=s.loc(dec[0]) if dec else None, key="C32.decrement")
+        # W: the budget only ever goes down - the decrements above are the only assignments to
+        # `tries_left` in the header-ex client (the initial value is part of the State aggregate)
+        writes = []
+        for p in ctx.facts.paths("lumina_node"):
+            if not p.startswith(("lumina_node::p2p::header_ex::client::", "<lumina_node::p2p::header_ex::client::")):
+                continue
+            wb = ctx.fn(p)
+            for b in sorted(wb.reachable_from([0])):
+                for i, st in enumerate(wb.stmts(b)):
+                    pr = norm_proj(st["d"].get("p"))
+                    if pr and pr[-1] == "tries_left":
+                        e = wb.expr_rvalue(st["r"], (), b, 0)
+                        from engine.mir import walk as _walk
+                        down = any(n[0] == "bin" and n[1].startswith("Sub") for n in _walk(e)) and not any(n[0] == "bin" and n[1].startswith(("Add", "Mul", "Shl")) for n in _walk(e))
+                        writes.append((wb, b, i, down))
+        ctx.floor("C32.budget.writes", "assignments to tries_left in the header-ex client", len(writes), 1)
+        for wb, b, i, down in writes:
+            ctx.check(down and wb.path == s.path, "C32.budget.monotone", wb.path, "tries_left is only ever decremented, and only in the send path", site=wb.loc(b, i), key="C32.budget.monotone|%s|%s" % (root_fn(wb.path), "down" if down else "other"))
         flt = None
         for p in ctx.facts.family(s.path)[1:]:
             cb = ctx.fn(p)
@@ -82,7 +100,6 @@ def run(ctx):
         snd = call_sites_with(ctx, m, ["tokio::sync::oneshot::Sender::<T>::send"])
         ok = len(snd) == 1 and has_all(ctx.leaves(call_expr(m, snd[0])[3][0]), ["call:*Option*::take", "a1.tx"])
         ctx.check(ok, "C32.once.take", m.path, "the channel is used through self.tx.take() (at most one send)", key="C32.once.take")
-    from engine.rules import all_call_sites, root_fn
     others = [b.path for b, blk in all_call_sites(ctx, ["lumina_node"], ["tokio::sync::oneshot::Sender::<T>::send"], path_filter=lambda p: p.startswith(U + "OneshotSender"))]
     ctx.check(set(root_fn(p) for p in others) == {U + "OneshotSender::<T>::maybe_send"}, "C32.once.single-path", U + "OneshotSender", "oneshot::Sender::send is reached only through maybe_send", key="C32.once.single-path")
     d = ctx.anchor("<lumina_node::p2p::utils::OneshotSender<T> as core::ops::drop::Drop>::drop", main=False)
